@@ -243,6 +243,45 @@ def covering_walks(edges, init_key, max_len=300, key=lambda s: json.dumps(s, sor
     return walks
 
 
+def pair_walks(edges, init_key, first_pred, second_pred, key=lambda s: json.dumps(s, sort_keys=True)):
+    """2-edge coverage: for every edge e whose label satisfies first_pred and every edge f leaving e's target whose label
+    satisfies second_pred, a walk  shortest-path-to-source(e), e, f.  (Edge coverage executes every transition from
+    SOME path; a defect that silently corrupts hidden state in e and only shows in f needs e and f back to back.)"""
+    out = defaultdict(list)
+    fk, tk = [], []
+    for i, e in enumerate(edges):
+        a, b = key(e['f']), key(e['t'])
+        fk.append(a)
+        tk.append(b)
+        out[a].append(i)
+    prev = {init_key: None}
+    dq = deque([init_key])
+    while dq:
+        u = dq.popleft()
+        for ei in out.get(u, ()):
+            v = tk[ei]
+            if v not in prev:
+                prev[v] = (u, ei)
+                dq.append(v)
+
+    def path_to(sk):
+        p = []
+        while prev[sk] is not None:
+            sk, ei = prev[sk]
+            p.append(ei)
+        p.reverse()
+        return p
+    walks = []
+    for i, e in enumerate(edges):
+        if not first_pred(e['l']) or fk[i] not in prev:
+            continue
+        base = path_to(fk[i]) + [i]
+        for j in out.get(tk[i], ()):
+            if second_pred(edges[j]['l']):
+                walks.append(base + [j])
+    return walks
+
+
 def shortest_paths(edges, init_key, key=lambda s: json.dumps(s, sort_keys=True)):
     """state key -> list of edge indices of a shortest path from the initial state"""
     out = defaultdict(list)
